@@ -62,7 +62,14 @@ type qGen struct {
 	objList []string
 }
 
-type scope map[string]string // response name -> name+args
+// scope records the response names used among sibling selections (a
+// selection set plus the fragments that are flattened into it).
+type scope struct {
+	names map[string]string // response name -> name+args
+	subs  map[string]*scope // response name -> scope of its (merged) sub-selections
+}
+
+func newScope() *scope { return &scope{names: map[string]string{}, subs: map[string]*scope{}} }
 
 func (g *qGen) alias() string {
 	g.nAlias++
@@ -93,12 +100,12 @@ func genQuery(r *rand.Rand, a *advSchema, hints map[string]bool) (*qDoc, map[str
 		doc.Op = "Op"
 	}
 	var err error
-	doc.Root, err = g.selSet(root, 1+r.Intn(4), scope{}, 2, true, false)
+	doc.Root, err = g.selSet(root, 1+r.Intn(4), newScope(), 2, true, false)
 	return doc, g.feats, err
 }
 
 // selSet generates a selection set for the named composite type.
-func (g *qGen) selSet(typeName string, depth int, sc scope, fragBudget int, isRoot, allAliased bool) (*qSelSet, error) {
+func (g *qGen) selSet(typeName string, depth int, sc *scope, fragBudget int, isRoot, allAliased bool) (*qSelSet, error) {
 	t := g.a.Types[typeName]
 	if t == nil {
 		return nil, fmt.Errorf("advertised graph references unknown type %q", typeName)
@@ -123,15 +130,20 @@ func (g *qGen) selSet(typeName string, depth int, sc scope, fragBudget int, isRo
 				return nil, err
 			}
 			sig := f.Name + f.Args
-			if prev, used := sc[f.Name]; allAliased || (used && (prev != sig || r.Intn(2) == 0)) || r.Intn(5) == 0 {
+			if prev, used := sc.names[f.Name]; allAliased || (used && (prev != sig || r.Intn(2) == 0)) || r.Intn(5) == 0 {
 				f.Alias = g.alias()
 				g.feats["alias"] = true
 			} else if used {
 				g.feats["merged_duplicate"] = true
 			}
-			sc[f.key()] = sig
+			sc.names[f.key()] = sig
 			if comp {
-				f.Sub, err = g.selSet(*fd.Type.named().Name, depth-1, scope{}, 2, false, false)
+				sub := sc.subs[f.key()]
+				if sub == nil {
+					sub = newScope()
+					sc.subs[f.key()] = sub
+				}
+				f.Sub, err = g.selSet(*fd.Type.named().Name, depth-1, sub, 2, false, false)
 				if err != nil {
 					return nil, err
 				}
@@ -186,18 +198,18 @@ func (g *qGen) selSet(typeName string, depth int, sc scope, fragBudget int, isRo
 	return set, nil
 }
 
-func (g *qGen) addTypename(set *qSelSet, sc scope, allAliased bool) {
+func (g *qGen) addTypename(set *qSelSet, sc *scope, allAliased bool) {
 	f := &qField{Name: "__typename"}
 	if g.r.Intn(3) == 0 {
 		f.Alias = g.alias()
 	}
-	sc[f.key()] = "__typename"
+	sc.names[f.key()] = "__typename"
 	set.Fields = append(set.Fields, f)
 	g.feats["__typename"] = true
 }
 
 // fragment returns an inline fragment or a named-fragment spread on typeName.
-func (g *qGen) fragment(typeName string, depth int, sc scope, fragBudget int, allAliased bool) (*qFrag, error) {
+func (g *qGen) fragment(typeName string, depth int, sc *scope, fragBudget int, allAliased bool) (*qFrag, error) {
 	r := g.r
 	if r.Intn(2) == 0 {
 		// named
@@ -210,7 +222,7 @@ func (g *qGen) fragment(typeName string, depth int, sc scope, fragBudget int, al
 		if d > 2 {
 			d = 2
 		}
-		set, err := g.selSet(typeName, d, scope{}, fragBudget, false, true)
+		set, err := g.selSet(typeName, d, newScope(), fragBudget, false, true)
 		if err != nil {
 			return nil, err
 		}
